@@ -1,0 +1,26 @@
+//! Verification hooks (only compiled with `--cfg adlt_verif`). Inert unless a test harness reads the counters
+//! or sets the environment variable.
+use std::sync::atomic::{AtomicU64, Ordering};
+
+/// number of times `sync_sender_send_delay_if_full` took the `Full` branch
+pub static SEND_FULL_HITS: AtomicU64 = AtomicU64::new(0);
+
+pub fn send_full_hit() {
+    SEND_FULL_HITS.fetch_add(1, Ordering::Relaxed);
+}
+
+/// if env `ADLT_VERIF_PARSE_THROTTLE=n:ms` is set: sleep `ms` milliseconds every `n` processed messages
+pub fn parse_throttle(messages_processed: u64) {
+    static CFG: std::sync::OnceLock<Option<(u64, u64)>> = std::sync::OnceLock::new();
+    let cfg = CFG.get_or_init(|| {
+        std::env::var("ADLT_VERIF_PARSE_THROTTLE").ok().and_then(|v| {
+            let (n, ms) = v.split_once(':')?;
+            Some((n.parse().ok()?, ms.parse().ok()?))
+        })
+    });
+    if let Some((n, ms)) = cfg {
+        if *n > 0 && messages_processed % *n == 0 {
+            std::thread::sleep(std::time::Duration::from_millis(*ms));
+        }
+    }
+}
